@@ -519,7 +519,7 @@ POLS = ["HH", "HV", "VH", "VV"]
 
 def rich_product(rng, np_seed, level=None, n_images=None, scans=None, geoms=None, max_lines=12, max_pixels=8,
                  pattern=None, classes=None, leader_kw=None, summary_order=None, newline="\n", spare=False,
-                 mode=None, optproj=None, image_order=None):
+                 mode=None, optproj=None, image_order=None, pols=None):
     """a product in which every record carries random admissible content.
 
     -> (files, info) ; info has names, order, per-image models (type/lines/pixels), leader/volume parameters
@@ -531,7 +531,8 @@ def rich_product(rng, np_seed, level=None, n_images=None, scans=None, geoms=None
     if scans is None:
         scans = [None] if rng.random() < 0.6 else [f"{rng.choice('BF')}{k}" for k in sorted(rng.sample(range(1, 8), rng.randrange(1, 4)))]
     n_pols = n_images or rng.choice([1, 1, 2, 2, 4])
-    pols = POLS[:n_pols] if rng.random() < 0.5 else sorted(rng.sample(POLS, n_pols), key=POLS.index)
+    pols_ = POLS[:n_pols] if rng.random() < 0.5 else sorted(rng.sample(POLS, n_pols), key=POLS.index)
+    pols = list(pols) if pols else pols_
     if len(pols) * len(scans) > 8:
         pols = pols[: max(1, 8 // len(scans))]
     names = product_names(level, mode=mode or ("WBD" if scans != [None] else "FBD"), pols=pols, scans=scans, optproj=optproj)
